@@ -3,17 +3,20 @@
 
    [parse_domain]  = the model of DomainParser.parse_domain (Model/Domain.v), [read_domain] = the independent
    reading of the grammar (Spec/Grammar.v), [e] = the token tree of the text (what C11 proves the reader returns,
-   for every layout, letter case and comment placement).
+   for every layout, letter case and comment placement).  No bound on the size of the text anywhere.
 
-   Full statements and what is proved:
-     vocabulary_statement       FALSE of the code (finding D45: trailing untyped constants are dropped);
-        C01_vocabulary_partial  holds whenever every constant is followed by its type,
-        C01_vocabulary_refuted  the witness (replayed on the implementation by the check).
-     faithful_statement         FALSE of the code (finding D47: '(f)' for a function declared with parameters is read
-                                as the declaration's own parameter list; and '(= 1 2)' over two numerals is stored as
-                                an object equality, which raises at grounding);
-        C01_faithful_partial    holds for every action whose reading satisfies [action_ok] (no such term),
-        C01_faithful_refuted    the witness: parsed, grounded and evaluated without any error, other meaning. *)
+     C01_vocabulary           the parsed tables are the declarations of the text (types with parents in any order,
+                              constants, predicates, functions, action schemas with ordered typed parameters).
+     C01_faithful_partial     every parsed action has the name, the parameters, a precondition denoting an equivalent
+                              formula and the same effect groups as the action written, provided its reading is
+                              [action_ok]: no '=' over two numerals, no assignment to a reserved word.
+     faithful_statement       (the same without [action_ok]) is FALSE: the library stores '(= 1 1.0)' as an object
+                              equality over the names "1" and "1.0";  C01_faithful_refuted is the witness and
+                              C01_refuted_raises shows that this action raises at its first grounding - the outcome
+                              the property allows ("at the latest when the affected action is first grounded").
+   The deviations found while building this (D45 trailing untyped constants dropped, D46/D07 repeated argument or
+   wrong arity silently altered, D47 '(f)' read as the declaration) are repaired in /repo; their witnesses are the
+   regression examples at the end. *)
 From Coq Require Import List Ascii String Bool Arith PrimFloat Permutation.
 From Verif Require Import Base.Result Base.Str Base.Sexp Base.PyDict Model.Types Model.Domain Model.Exec
   Spec.Pddl Spec.Grammar Spec.Faithful Proofs.C01_Defs Proofs.C01_Typed Proofs.C01_Vocab Proofs.C01_Pre
@@ -23,23 +26,18 @@ Open Scope string_scope.
 Open Scope list_scope.
 
 (* ---------- vocabulary: types (with parents, any order), constants, predicates, functions, action schemas ------- *)
-(* full statement (Proofs/C01_Defs.v):
-     vocabulary_statement := forall num e m sd, parse_domain num e = Ok m -> read_domain num e = Some sd ->
-        sections_once e -> ~ In ":private" (map fst (sd_preds sd)) -> model_vocabulary m = spec_vocabulary sd *)
-Theorem C01_vocabulary_partial : forall num e m sd,
+Theorem C01_vocabulary : forall num e m sd,
   parse_domain num e = Ok m -> read_domain num e = Some sd ->
-  sections_once e -> constants_all_typed e -> ~ In ":private" (map fst (sd_preds sd)) ->
+  sections_once e -> ~ In ":private" (map fst (sd_preds sd)) ->
   model_vocabulary m = spec_vocabulary sd.
-Proof. exact vocabulary_partial. Qed.
-
-Theorem C01_vocabulary_refuted : ~ vocabulary_statement.
-Proof. exact vocabulary_statement_false. Qed.
+Proof. exact vocabulary_faithful. Qed.
 
 (* with every name declared once, the tables are the declarations exactly as written, in order *)
 Theorem C01_vocabulary_distinct : forall sd, distinct_names sd -> spec_vocabulary sd = plain_vocabulary sd.
 Proof. exact spec_vocabulary_plain. Qed.
 
-(* the building blocks, without any side condition: typed lists (grouped / untyped parameters) and (:types ...) *)
+(* the building blocks, without any side condition: typed lists (grouped / untyped parameters), (:types ...),
+   (:constants ...) *)
 Theorem C01_signature : forall tt toks sg,
   parse_signature tt toks = Ok sg -> exists rows, read_typed toks = Some rows /\ sg = dict_of rows.
 Proof. exact parse_signature_spec. Qed.
@@ -48,24 +46,21 @@ Theorem C01_types : forall toks tt rows,
   parse_types toks = Ok tt -> read_types toks = Some rows -> tt = type_rows rows.
 Proof. exact parse_types_spec. Qed.
 
-(* what happens to the constants in general: the parsed table plus the dropped names is the declared table *)
 Theorem C01_constants : forall tt toks r names rows,
   parse_constants tt toks = Ok r -> atom_names toks = Some names -> read_typed_list names [] = Some rows ->
-  dupdate r (map (fun c => (c, "object")) (trailing_untyped names [])) = dict_of rows.
+  r = dict_of rows.
 Proof. exact parse_constants_spec. Qed.
 
 (* ---------- preconditions and effects denote what is written ---------- *)
-(* full statement (Proofs/C01_Defs.v):
-     faithful_statement := forall num e m sd n ma, parse_domain num e = Ok m -> read_domain num e = Some sd ->
-        sections_once e -> names_ok sd -> dget (d_actions m) n = Some ma ->
-        exists sa, In sa (sd_actions sd) /\ n = lower_string (a_name sa) /\ action_faithful ma sa
-   where action_faithful = same name, same ordered typed parameters, the precondition denotes an equivalent formula
-   (forall eps tt objs env s, holds ... f' = holds ... f), the effects denote the same groups up to order. *)
+(* action_faithful ma sa (Proofs/C01_Defs.v) = same lower-case name, same ordered typed parameters, the precondition
+   denotes an equivalent formula (forall eps tt objs env s, holds ... f' = holds ... f; the object model keeps the
+   (in)equality pairs apart from the other operands, hence "equivalent"), the effects denote the same groups up to
+   the order inside a group and of the groups (the library keeps both in sets). *)
 Theorem C01_faithful_partial : forall num e m sd n ma,
   parse_domain num e = Ok m -> read_domain num e = Some sd -> sections_once e -> names_ok sd ->
   dget (d_actions m) n = Some ma ->
   exists sa, In sa (sd_actions sd) /\ n = lower_string (a_name sa) /\
-             (action_ok (vo_funcs (spec_vocabulary sd)) sa = true -> action_faithful ma sa).
+             (action_ok sa = true -> action_faithful ma sa).
 Proof. exact faithful_action_ok. Qed.
 
 (* all actions at once, in the order of the text *)
@@ -73,62 +68,71 @@ Theorem C01_faithful_all : forall num e m sd,
   parse_domain num e = Ok m -> read_domain num e = Some sd -> sections_once e -> names_ok sd ->
   exists parsed,
     d_actions m = dict_of (map name_pair parsed) /\
-    Forall2 (fun ma sa => ma_name ma = lower_string (a_name sa) /\
-                          (action_ok (vo_funcs (spec_vocabulary sd)) sa = true -> action_faithful ma sa))
+    Forall2 (fun ma sa => ma_name ma = lower_string (a_name sa) /\ (action_ok sa = true -> action_faithful ma sa))
             parsed (sd_actions sd).
 Proof. exact faithful_all_ok. Qed.
 
 Theorem C01_faithful_refuted : ~ faithful_statement.
 Proof. exact faithful_statement_false. Qed.
 
-(* the same witness with the silence made explicit: the altered action is grounded and evaluated without an error *)
-Theorem C01_faithful_refuted_silent :
-  exists num e m sd ma sa,
-    parse_domain num e = Ok m /\ read_domain num e = Some sd /\ sections_once e /\ names_ok sd /\
-    dget (d_actions m) (lower_string (a_name sa)) = Some ma /\ sd_actions sd = [sa] /\
+(* the witness of the refutation cannot be used: Operator.ground() raises for every call of the action *)
+Theorem C01_refuted_raises :
+  exists m sd ma sa,
+    parse_domain num_tab numpair_sexp = Ok m /\ read_domain num_tab numpair_sexp = Some sd /\
+    sections_once numpair_sexp /\ names_ok sd /\
+    sd_actions sd = [sa] /\ dget (d_actions m) (lower_string (a_name sa)) = Some ma /\
     ~ action_faithful ma sa /\
-    exists ga s objs, ground_action m ma ["o1"] = Ok ga /\ is_applicable m 0x1p-14%float (Some objs) ga s = Ok true.
-Proof. exact faithful_refuted_silent. Qed.
+    forall args, exists k, ground_action m ma args = Err k.
+Proof. exact numpair_witness. Qed.
 
 (* one section at a time, for any tables: preconditions ... *)
-Theorem C01_precondition : forall num tt consts preds funcs sfuncs,
-  (forall f sg, dget funcs f = Some sg -> lookup f sfuncs = Some sg) ->
+Theorem C01_precondition : forall num tt consts preds funcs,
   (forall f sg, dget funcs f = Some sg -> str_in f keywords = false) ->
   (forall p, dmem preds p = true -> str_in p keywords = false) ->
   forall sg e p f,
   parse_preconditions num tt consts preds funcs sg e = Ok p ->
   read_precondition num e = Some f ->
-  form_ok sfuncs f = true ->
+  form_ok f = true ->
   exists f', denote_pre p = Some f' /\ form_equiv f' f.
 Proof. exact parse_preconditions_faithful. Qed.
 
 (* ... and effects *)
-Theorem C01_effects : forall num tt consts preds funcs sfuncs,
-  (forall f sg, dget funcs f = Some sg -> lookup f sfuncs = Some sg) ->
+Theorem C01_effects : forall num tt consts preds funcs,
   (forall f sg, dget funcs f = Some sg -> str_in f keywords = false) ->
   (forall p, dmem preds p = true -> str_in p keywords = false) ->
   forall sg e ef es,
   parse_effects num tt consts preds funcs sg e = Ok ef ->
   read_effects num e = Some es ->
-  forallb (eff_ok sfuncs) es = true ->
+  forallb eff_ok es = true ->
   exists es', denote_eff_parts (ea_disc ef) (ea_num ef) (ea_cond ef) (ea_univ ef) = Some es' /\ effs_rel es' es.
 Proof. exact parse_effects_faithful. Qed.
 
 (* ---------- the hypotheses are satisfiable by a non-trivial text ---------- *)
 Theorem C01_example :
   is_ok (parse_domain num_tab example_sexp) = true /\
-  sections_once example_sexp /\ constants_all_typed example_sexp /\
+  sections_once example_sexp /\
   match read_domain num_tab example_sexp with
   | Some sd =>
       names_not_keywords (map fst (sd_preds sd)) && names_not_keywords (map fst (sd_funcs sd)) &&
       negb (str_in ":private" (map fst (sd_preds sd))) &&
-      forallb (action_ok (vo_funcs (spec_vocabulary sd))) (sd_actions sd)
+      forallb action_ok (sd_actions sd)
   | None => false
   end = true.
 Proof. exact example_all. Qed.
 
-Print Assumptions C01_vocabulary_partial.
-Print Assumptions C01_vocabulary_refuted.
+(* ---------- regression: the witnesses of the repaired deviations ---------- *)
+Theorem C01_D45_repaired :
+  match parse_domain num_tab d45_sexp with Ok m => d_consts m | Err _ => [] end
+  = [("c1", "a"); ("c2", "object"); ("c3", "object")].
+Proof. exact d45_repaired. Qed.
+
+Theorem C01_D46_repeated_rejected : is_ok (parse_domain num_tab (text_sexp (d46_text "(r ?x ?x)"))) = false.
+Proof. exact d46_repeated_rejected. Qed.
+
+Theorem C01_D47_rejected : is_ok (parse_domain num_tab (text_sexp (d46_text "(>= (f) 1)"))) = false.
+Proof. exact d47_rejected. Qed.
+
+Print Assumptions C01_vocabulary.
 Print Assumptions C01_vocabulary_distinct.
 Print Assumptions C01_signature.
 Print Assumptions C01_types.
@@ -136,7 +140,10 @@ Print Assumptions C01_constants.
 Print Assumptions C01_faithful_partial.
 Print Assumptions C01_faithful_all.
 Print Assumptions C01_faithful_refuted.
-Print Assumptions C01_faithful_refuted_silent.
+Print Assumptions C01_refuted_raises.
 Print Assumptions C01_precondition.
 Print Assumptions C01_effects.
 Print Assumptions C01_example.
+Print Assumptions C01_D45_repaired.
+Print Assumptions C01_D46_repeated_rejected.
+Print Assumptions C01_D47_rejected.
